@@ -410,3 +410,22 @@ func Unwrap(fn *ssa.Function) *ssa.Function {
 	}
 	return fn
 }
+
+// IsArrayPtr: t is a pointer to an array.
+func IsArrayPtr(t types.Type) bool {
+	_, ok := ArrayLen(t)
+	return ok
+}
+
+// ArrayLen: the length of the array t points to.
+func ArrayLen(t types.Type) (int64, bool) {
+	pt, ok := t.Underlying().(*types.Pointer)
+	if !ok {
+		return 0, false
+	}
+	arr, ok := pt.Elem().Underlying().(*types.Array)
+	if !ok {
+		return 0, false
+	}
+	return arr.Len(), true
+}
